@@ -1,6 +1,7 @@
 HOOK_COMMITS = ["69b5feac"]
+FIX_COMMITS = ["1d9ec378", "304105e7"]
 ENGINES = [
-    {"name": "tlc+harness", "path": "/verif/bin/check", "serves_properties": ["C20"],
+    {"name": "tlc+harness", "path": "/verif/bin/check", "serves_properties": ["C01", "C02", "C07", "C08", "C09", "C20"],
      "kind_free_text": "explicit TLA+ specification (spec/*.tla) checked with TLC; bound to the Rust code by a harness crate "
                        "(/verif/harness) that replays TLC-generated behaviours into mls-rs and records traces validated by TLC"},
 ]
@@ -14,5 +15,25 @@ CHECKS = [
      "note": "trusts TLC's evaluator and the hook re-export; pairs above 2^9 leaves and sizes above 2^12 are sampled",
      "technique": "TLA+ reference definitions + TLC trace validation of an implementation-recorded table"},
 ]
+
+_CORE = "explicit TLA+ state machine (MlsGroup.tla) model-checked with TLC; TLC-simulated behaviours replayed into real mls-rs groups with projection comparison after every step"
+CHECKS += [
+    {"id": "C01", "category": "model_checking", "technique": _CORE,
+     "text": "TLC checks Agreement / EpochIsChainLength / NoDecapFailure on every reachable state of a bounded instance and generates long random behaviours (adds, updates, removes, by-value and by-reference, racing commits, stale deliveries, joins); each is replayed into the library with a random suite / provider mix / commit options, comparing epoch, tree (node by node through a key bijection), private-key positions, cache, pending flag, and checking byte-equality of context, tree, authenticator, exported secrets and mutual decryption among all members the model puts in one epoch.",
+     "note": "trusts TLC, the symbolic crypto abstraction, and the harness projection; exhaustive only for the bounded instance (3 parties), larger instances by weighted simulation; by-reference adds/removes limited to one per epoch/leaf in generated behaviours"},
+    {"id": "C02", "category": "model_checking", "technique": _CORE + "; recording crypto provider for HPKE recipients",
+     "text": "Model invariant RecipientsEntitled plus, on the implementation, the multiset of public keys of every hpke_seal issued while a commit is built (recording CipherSuiteProvider) must equal the model's copath-resolution recipients (new tree, minus leaves added by the commit) and the init keys of the added key packages; retained groups of removed members are fed all later traffic and must reject it unchanged.",
+     "note": "trusts TLC, the symbolic crypto abstraction, and the harness projection; exhaustive only for the bounded instance (3 parties), larger instances by weighted simulation; by-reference adds/removes limited to one per epoch/leaf in generated behaviours"},
+    {"id": "C07", "category": "model_checking", "technique": _CORE,
+     "text": "Welcome joins are ordinary actions of the model (joiner placed in leftmost blank, under unmerged leaves, with and without path); the joiner's projected state, private keys and concrete agreement/cross-decryption with the members are compared after every join.",
+     "note": "trusts TLC, the symbolic crypto abstraction, and the harness projection; exhaustive only for the bounded instance (3 parties), larger instances by weighted simulation; by-reference adds/removes limited to one per epoch/leaf in generated behaviours; key-package deletion and mismatched Welcomes are covered by the storage extension when built"},
+    {"id": "C08", "category": "model_checking", "technique": _CORE + "; independent tree-hash recomputation and ExternalClient validation",
+     "text": "Model invariant TreesValid on every member's copy; on the implementation every member's exported tree is compared node by node with the model's tree after every step, its tree hash is recomputed from the exported nodes by harness code that shares nothing with the library's incremental cache, and tree + signed GroupInfo must be accepted by ExternalClient::observe_group (the joiner's from-scratch validation).",
+     "note": "trusts TLC, the symbolic crypto abstraction, and the harness projection; exhaustive only for the bounded instance (3 parties), larger instances by weighted simulation; by-reference adds/removes limited to one per epoch/leaf in generated behaviours; the recomputation encodes nodes with the library's MlsEncode of the public node types"},
+    {"id": "C09", "category": "model_checking", "technique": _CORE + "; HPKE probe of every stored private key",
+     "text": "Model invariant PrivMatchesPub; on the implementation (verif_private_keys hook) the set of direct-path positions holding a key must equal the model's after every step, every stored key must open an HPKE seal to the public key at that node of the exported tree, none may sit at a blank node, and path keys must be fresh (bijection).",
+     "note": "trusts TLC, the symbolic crypto abstraction, and the harness projection; exhaustive only for the bounded instance (3 parties), larger instances by weighted simulation; by-reference adds/removes limited to one per epoch/leaf in generated behaviours"},
+]
+
 _PENDING = "check not built yet in this round (see DESIGN.md section 10 build order); will be claimed once its TLA+ model and binding exist"
-NOT_APPLICABLE = [{"property_id": f"C{i:02d}", "reason": _PENDING} for i in range(1, 20)]
+NOT_APPLICABLE = [{"property_id": f"C{i:02d}", "reason": _PENDING} for i in range(1, 20) if f"C{i:02d}" not in {c["id"] for c in CHECKS}]
